@@ -559,6 +559,9 @@ class CSSStyleSheet(cssutils.stylesheets.StyleSheet):
 
             rule._parentStyleSheet = None  # detach
             del self._cssRules[index]  # delete from StyleSheet
+            if rule.type in (rule.VARIABLES_RULE, rule.IMPORT_RULE):
+                # its variables are not available anymore
+                self._updateVariables()
 
     def insertRule(self, rule, index=None, inOrder=False, _clean=True):  # noqa: C901
         """
